@@ -28,7 +28,11 @@ def scenarios(tier, seed):
     return [{"kind": "chk2plt", "seed": seed * 1000 + 1400 + i, "ghost": 1 + i % 3, "nlevels": 1 + (i + 1) % 3, "nfiles": 1 + i % 3,
              "nspecies": [3, 2, 5][i % 3], "layout": ["shuffled", "roundrobin"][i % 2], "n0": [[16, 16, 8], [8, 16, 24]][i % 2],
              "dx0": [[0.1, 0.2, 0.4], [1.0, 0.5, 0.25], [1., 1., 1.]][i % 3], "box_sizes": [8, 16] if i % 3 == 2 else None,
-             "species_source": ["list", "plotfile"][i % 2], "ncombos": 3 if tier == "quick" else 8} for i in range(n)]
+             "species_source": ["list", "plotfile"][i % 2], "ncombos": 3 if tier == "quick" else 8,
+             # ... then a checkpoint with ANOTHER number of species converted by the same process (same paths)
+             **({"then": {"kind": "chk2plt", "seed": seed * 1000 + 1450 + i, "ghost": 2, "nlevels": 2, "nfiles": 2, "nspecies": [5, 4, 2][i % 3],
+                          "layout": "shuffled", "n0": [16, 16, 8], "dx0": [0.1, 0.2, 0.4], "species_source": "list",
+                          "ncombos": 4, "force_floor": True}} if i < 2 else {})} for i in range(n)]
 
 
 def run_scenario(p, wd):
